@@ -104,6 +104,9 @@ def verify_contract(name, timeout_ms=20000, repo_root=None, want_model=True, var
     return out
 
 
+_SEM = None          # process-shared cap on the number of obligation provers running at once (set by verify_many)
+
+
 def _prove_parallel(obs, timeout_ms, ax, want_model, jobs):
     """Prove each obligation in its own forked child (see _prove_isolated), up to `jobs` children at a time.
     Children hand their result back through a scratch file (results can be larger than a pipe buffer)."""
@@ -123,6 +126,8 @@ def _prove_parallel(obs, timeout_ms, ax, want_model, jobs):
     try:
         while nxt < len(obs) or running:
             while nxt < len(obs) and len(running) < jobs:
+                if _SEM is not None and not _SEM.acquire(block=not running):
+                    break               # the machine-wide cap is reached: wait for one of our own children first
                 i, ob = nxt, obs[nxt]
                 nxt += 1
                 path = os.path.join(tmpdir, '%d.pkl' % i)
@@ -143,6 +148,8 @@ def _prove_parallel(obs, timeout_ms, ax, want_model, jobs):
             if pid not in running:
                 continue
             i, path = running.pop(pid)
+            if _SEM is not None:
+                _SEM.release()
             try:
                 with open(path, 'rb') as f:
                     d = pickle.load(f)
@@ -204,6 +211,10 @@ def verify_many(names, timeout_ms=20000, repo_root=None, procs=None):
         os.environ['SEDVC_OB_JOBS'] = str(min(12, ncpu))
         return [_worker(t) for t in tasks]
     ctx = multiprocessing.get_context('fork')
+    # at most ~ncpu/2 obligation provers at a time over ALL tasks (each may start a small solver portfolio): without
+    # this cap a check with many functions oversubscribes the machine and obligations time out for no reason
+    global _SEM
+    _SEM = ctx.BoundedSemaphore(max(4, ncpu // 2))
     # one fresh process per task: a verification never depends on what its worker did before
     with ctx.Pool(procs, maxtasksperchild=1) as pool:
         return pool.map(_worker, tasks, chunksize=1)
